@@ -655,7 +655,74 @@ func ascendingFromZero(idx ssa.Value) bool {
 				okStep = false
 			}
 		}
-		return okInit && okStep
+		if okInit && okStep {
+			return true
+		}
+		// the counter kept across two nested loops (an iterator's position: the inner loop advances it to the next
+		// match, the outer one resumes from there): a web of phis whose other incoming values are 0, arriving from
+		// outside every cycle, or one more than the index itself
+		web := map[*ssa.Phi]bool{}
+		var collect func(p *ssa.Phi)
+		collect = func(p *ssa.Phi) {
+			if web[p] {
+				return
+			}
+			web[p] = true
+			for _, e := range p.Edges {
+				if q, ok := e.(*ssa.Phi); ok {
+					collect(q)
+				}
+			}
+		}
+		collect(phi)
+		if len(web) < 2 || len(web) > 8 {
+			return false
+		}
+		zero := false
+		for p := range web {
+			for i, e := range p.Edges {
+				if q, ok := e.(*ssa.Phi); ok && web[q] {
+					continue
+				}
+				if kk, ok := constInt(e); ok {
+					if kk != 0 || i >= len(p.Block().Preds) || blockReachable(p.Block(), p.Block().Preds[i]) {
+						return false
+					}
+					zero = true
+					continue
+				}
+				b, ok := e.(*ssa.BinOp)
+				if !ok || b.Op != token.ADD {
+					return false
+				}
+				q, isPhi := b.X.(*ssa.Phi)
+				if k, isK := constInt(b.Y); !isPhi || q != phi || !isK || k != 1 {
+					// only the position the element was taken at is advanced: no index is passed over unvisited
+					return false
+				}
+			}
+		}
+		return zero
+	}
+	return false
+}
+
+// blockReachable: `to` can be reached from `from` along CFG edges (from itself counts only through a cycle).
+func blockReachable(from, to *ssa.BasicBlock) bool {
+	seen := map[*ssa.BasicBlock]bool{}
+	work := []*ssa.BasicBlock{from}
+	for len(work) > 0 {
+		b := work[len(work)-1]
+		work = work[:len(work)-1]
+		for _, s := range b.Succs {
+			if s == to {
+				return true
+			}
+			if !seen[s] {
+				seen[s] = true
+				work = append(work, s)
+			}
+		}
 	}
 	return false
 }
